@@ -5,8 +5,10 @@ import (
 	"math/rand"
 	"os"
 	"path/filepath"
+	"runtime"
 	"sort"
 	"strings"
+	"sync"
 
 	"github.com/evolbioinfo/gotree/tree"
 
@@ -27,7 +29,7 @@ func init() {
 		},
 		Rule: "case = one generator call: {uniform, yule, caterpillar} x tip count in -1..64,100,1000 x rooted/unrooted x seed; balanced x depth -1..10; " +
 			"star x tip count; the topology enumerator for n = 3..8 unrooted and 2..7 rooted (one more in thorough), with default and given tip names; " +
-			"every 5th case through gotree generate. Monitors on the returned tree WITHOUT re-indexing it: structure walker, text-vs-structure, " +
+			"every 5th case through gotree generate; one library case in eight is repeated by 6 concurrent callers x 12 calls, each result judged alike. Monitors on the returned tree WITHOUT re-indexing it: structure walker, text-vs-structure, " +
 			"tip count / unique names, degrees and rootedness, lengths >= 0, index monitor (bitsets, tip ranks, depths), shape predicates " +
 			"(cherries of a caterpillar, depth profile of a balanced tree, single inner node of a star), (2n-5)!!/(2n-3)!! distinct canonical " +
 			"topologies; invalid sizes must give an error value / non-zero exit without panic. non-trivial = a valid size with >= 4 tips, or an " +
@@ -238,6 +240,63 @@ func runC16(c *Ctx, idx int, o *Obs) {
 		return
 	}
 	c16Judge(o, t, gen, tips, rooted, ctx, true)
+	if r.Intn(8) == 0 && tips <= 64 {
+		c16Concurrent(o, gen, n, tips, rooted, ctx)
+	}
+}
+
+// c16Concurrent: several callers at once (the generators draw from the goroutine-safe global source and are
+// documented as plain functions): every tree returned to every caller is judged like a tree returned to a single
+// caller.
+func c16Concurrent(o *Obs, gen string, n, tips int, rooted bool, ctx string) {
+	const callers, each = 6, 12
+	type res struct {
+		t     *tree.Tree
+		err   error
+		panic string
+	}
+	out := make([][]res, callers)
+	var wg sync.WaitGroup
+	start := make(chan struct{})
+	for g := 0; g < callers; g++ {
+		wg.Add(1)
+		go func(g int) {
+			defer wg.Done()
+			<-start
+			for i := 0; i < each; i++ {
+				var x res
+				func() {
+					defer func() {
+						if p := recover(); p != nil {
+							x.panic = fmt.Sprint(p)
+						}
+					}()
+					x.t, x.err = c16Call(gen, n, rooted)
+				}()
+				out[g] = append(out[g], x)
+				runtime.Gosched()
+			}
+		}(g)
+	}
+	close(start)
+	wg.Wait()
+	for g := range out {
+		for i, x := range out[g] {
+			cc := fmt.Sprintf("%s, caller %d of %d concurrent callers, call %d", ctx, g, callers, i)
+			o.Ev("concurrent_generator_calls", 1)
+			if !o.Check(x.panic == "", "generator_panic", cc+": "+x.panic, cc, "gen", gen) {
+				return
+			}
+			if !o.Check(x.err == nil && x.t != nil, "valid_size_rejected", fmt.Sprintf("%s: %v", cc, x.err), cc, "gen", gen) {
+				return
+			}
+			before := len(o.Viols)
+			c16Judge(o, x.t, gen, tips, rooted, cc, true)
+			if len(o.Viols) > before {
+				return
+			}
+		}
+	}
 }
 
 func treeText(t *tree.Tree) (s string) {
